@@ -811,12 +811,18 @@ impl TypeEntry {
                         (variant_name, &variant.raw_name)
                     })
                     .unzip();
+                // The raw name is used as a format string by `write!()`;
+                // escape any braces so that they are emitted verbatim.
+                let display_strs = match_strs
+                    .iter()
+                    .map(|s| s.replace('{', "{{").replace('}', "}}"))
+                    .collect::<Vec<_>>();
 
                 quote! {
                     impl ::std::fmt::Display for #type_name {
                         fn fmt(&self, f: &mut ::std::fmt::Formatter<'_>) -> ::std::fmt::Result {
                             match *self {
-                                #(Self::#match_variants => write!(f, #match_strs),)*
+                                #(Self::#match_variants => write!(f, #display_strs),)*
                             }
                         }
                     }
